@@ -64,8 +64,8 @@ def user_object(run, name, prefer_result):
     (only if it still carries the name it is known by - dilute(new_name=...) renames the result)."""
     h = run.handles.get(name)
     r = (run.baked or {}).get(name)
-    if prefer_result and r is not None and getattr(r, 'name', None) == name:
-        return r
+    if prefer_result and r is not None and getattr(r, 'name', None) == name and (h is None or type(r) is type(h)):
+        return r            # (a result of another kind than the declared object is reported by the bake check, not here)
     return h if h is not None else r
 
 
